@@ -22,7 +22,11 @@ func TestDebugPlan(t *testing.T) {
 	out := ex.Execute(p)
 	sp := out.World.pool
 	fmt.Printf("gets=%d puts=%d reissued=%d outstanding=%d peak=%d steps=%d spawned=%d\n", sp.Gets, sp.Puts, sp.Reissued, sp.Outstanding, sp.Peak, out.Steps, out.Spawned)
-	for _, r := range out.R {
+	for ri, r := range out.R {
+		for si, st := range r.Stored {
+			v := verdictOf(st)
+			fmt.Printf("R%d stored %d: len=%d legacy=%v valid=%v trunc=%v err=%v field=%s consumed=%d content=%d blocks=%d kernel=%v\n", ri, si, len(st), v.f.Legacy, v.valid, v.trunc, v.f.Err, v.f.ErrField, v.f.Consumed, len(v.content), len(v.f.Blocks), v.f.KernelTotal)
+		}
 		for _, o := range r.Ops {
 			fmt.Printf("op %s n=%d err=%s calls=%d consumed=%d\n", o.Op, o.N, errStr(o.Err), o.Calls, o.Consumed)
 		}
